@@ -1243,18 +1243,20 @@ def part_recordings(ctx, objdir):
     rng = ctx.rng
     root = os.path.join(ctx.scratch, "rec")
     os.makedirs(root, exist_ok=True)
-    variants = [("full", 2, 3, True, False, False, False)]
+    # "full": nested dlopen from a constructor AND a DT_NEEDED dependency that comes in with the opened library
+    # (regression case of fix 0c4417a: before it the dependency got no DLOP entry)
+    variants = [("full", 2, 3, True, True, False, False)]
     for k in range(ctx.n(1, 5)):
-        variants.append(("v%d" % k, rng.randrange(1, 4), rng.randrange(1, 4), rng.random() < 0.6, False,
+        variants.append(("v%d" % k, rng.randrange(1, 4), rng.randrange(1, 4), rng.random() < 0.6, rng.random() < 0.5,
                          rng.random() < 0.5, rng.random() < 0.5))
     for tag, na, nb, nested, dep, relpath, lazy in variants:
         sc = r_scenario(ctx, objdir, root, tag, na, nb, nested, dep, relpath, lazy)
         if sc is None:
             continue
         r = r_evaluate(ctx, sc)
-        tags = ["R:ctor", "R:c++-global-init" if nested else "R:no-nested", "R:nested-dlopen" if nested else "R:single-dlopen",
+        tags = ["R:ctor", "R:dependency" if dep else "R:no-dependency", "R:c++-global-init" if nested else "R:no-nested", "R:nested-dlopen" if nested else "R:single-dlopen",
                 "R:relative-path" if relpath else "R:absolute-path", "R:lazy" if lazy else "R:now"]
-        ctx.case(key=("R", tag, na, nb, nested, relpath, lazy), tags=tags, size=len(sc["recs"]),
+        ctx.case(key=("R", tag, na, nb, nested, dep, relpath, lazy), tags=tags, size=len(sc["recs"]),
                  sample={"part": "R", "params": sc["params"], "records": len(sc["recs"]),
                          "functions": [x[4] for x in sc["recs"]][:14]} if tag == "full" else None)
         if r is None:
@@ -1263,6 +1265,8 @@ def part_recordings(ctx, objdir):
         want = {"c10a_init", "c10a_fill", "c10a_run", "c10_exe_fn", "c10_local", "c10lib_fn", "main"}
         if nested:
             want |= {"c10b_helper", "c10b_run", "_GLOBAL__sub_I_b.cc"}
+        if dep:
+            want |= {"c10dep_fn"}
         addrs_seen = set(in_which(sc, x[1]).split(" of ")[0] for x in sc["recs"])
         missing = sorted(want - addrs_seen)
         if missing:
@@ -1285,27 +1289,6 @@ def part_recordings(ctx, objdir):
         elif r["mismatch"]:
             ctx.violation("model of the analysis side and `uftrace replay` disagree on a real recording (%d records)" % len(r["mismatch"]),
                           r_replay_obj(sc, r, {"first": list(r["probes"][r["mismatch"][0]])}), False)
-    # dedicated witness of a listed defect: a DT_NEEDED dependency that comes in with the dlopen()ed library
-    sc = r_scenario(ctx, objdir, root, "dep", 2, 1, False, True, False, False)
-    if sc is not None:
-        r = r_evaluate(ctx, sc, skip_mods=("libc10dep.so",))
-        ctx.case(key=("R", "dep"), tags=["R:dlopen-with-dependency"], size=len(sc["recs"]))
-        if r is not None:
-            b = sc["bases"].get("libc10dep.so")
-            ext = max(a + s_ for a, s_, _ in sc["elfs"]["libc10dep.so"]) if sc["elfs"].get("libc10dep.so") else 0
-            dep_recs = [x for x in sc["recs"] if b is not None and b <= x[1] < b + ext]
-            dep_raw = [x for x in dep_recs if x[4].startswith("<")]
-            ctx.known_finding("dlopen-dependency",
-                              "records inside a DT_NEEDED dependency loaded by dlopen() are shown as raw addresses",
-                              still_fails=bool(dep_raw),
-                              replay=r_replay_obj(sc, r, {"dependency_records": [["%x" % x[1], x[3], x[4]] for x in dep_recs][:6]}))
-            if not dep_recs:
-                ctx.broken("e2e(dep): no record inside libc10dep.so - witness did not run as designed", sc["replay"][-1500:])
-            other = r["raw"] or r["vname"] or r["vmod"] or r["vorder"]
-            if other:
-                ctx.violation("real recording (dlopen with a dependency): records outside the dependency are resolved wrongly",
-                              r_replay_obj(sc, r), True)
-
 
 
 # ---------------------------------------------------------------- P: PLT entries of real ELF files
